@@ -488,3 +488,182 @@ pub fn diag_bytes(d: &[u8]) -> String {
         Err(e) => format!("<not CBOR: {:?}> h'{}'", e, hex::encode(d)),
     }
 }
+
+// ---------------------------------------------------------------------------------------------
+// Raw items: a CBOR tree that remembers *how* it is encoded, so that structural mutants
+// (including non-deterministic encodings) can be emitted.
+
+#[derive(Clone, Debug, PartialEq)]
+pub enum RItem {
+    /// major type 0/1/…: value + extra head width (0 = shortest, 1.. = next wider encodings)
+    U(u64, u8),
+    N(u64, u8),
+    B(Vec<u8>, u8),
+    T(Vec<u8>, u8),
+    /// elements, head widening, indefinite-length
+    A(Vec<RItem>, u8, bool),
+    /// entries in emission order, head widening, indefinite-length
+    M(Vec<(RItem, RItem)>, u8, bool),
+    Tag(u64, u8, Box<RItem>),
+    /// raw simple/float bytes (initial byte + payload)
+    Raw(Vec<u8>),
+}
+
+fn head_w(major: u8, v: u64, widen: u8, out: &mut Vec<u8>) {
+    // minimal width class: 0 (<24), 1 (u8), 2 (u16), 3 (u32), 4 (u64)
+    let min = if v < 24 {
+        0
+    } else if v <= 0xff {
+        1
+    } else if v <= 0xffff {
+        2
+    } else if v <= 0xffff_ffff {
+        3
+    } else {
+        4
+    };
+    let w = (min + widen).min(4);
+    let m = major << 5;
+    match w {
+        0 => out.push(m | v as u8),
+        1 => {
+            out.push(m | 24);
+            out.push(v as u8);
+        }
+        2 => {
+            out.push(m | 25);
+            out.extend_from_slice(&(v as u16).to_be_bytes());
+        }
+        3 => {
+            out.push(m | 26);
+            out.extend_from_slice(&(v as u32).to_be_bytes());
+        }
+        _ => {
+            out.push(m | 27);
+            out.extend_from_slice(&v.to_be_bytes());
+        }
+    }
+}
+
+pub fn emit_into(r: &RItem, out: &mut Vec<u8>) {
+    match r {
+        RItem::U(v, w) => head_w(0, *v, *w, out),
+        RItem::N(v, w) => head_w(1, *v, *w, out),
+        RItem::B(b, w) => {
+            head_w(2, b.len() as u64, *w, out);
+            out.extend_from_slice(b);
+        }
+        RItem::T(b, w) => {
+            head_w(3, b.len() as u64, *w, out);
+            out.extend_from_slice(b);
+        }
+        RItem::A(xs, w, indef) => {
+            if *indef {
+                out.push(0x9f);
+                for x in xs {
+                    emit_into(x, out);
+                }
+                out.push(0xff);
+            } else {
+                head_w(4, xs.len() as u64, *w, out);
+                for x in xs {
+                    emit_into(x, out);
+                }
+            }
+        }
+        RItem::M(es, w, indef) => {
+            if *indef {
+                out.push(0xbf);
+            } else {
+                head_w(5, es.len() as u64, *w, out);
+            }
+            for (k, v) in es {
+                emit_into(k, out);
+                emit_into(v, out);
+            }
+            if *indef {
+                out.push(0xff);
+            }
+        }
+        RItem::Tag(t, w, i) => {
+            head_w(6, *t, *w, out);
+            emit_into(i, out);
+        }
+        RItem::Raw(b) => out.extend_from_slice(b),
+    }
+}
+
+pub fn emit(r: &RItem) -> Vec<u8> {
+    let mut out = Vec::new();
+    emit_into(r, &mut out);
+    out
+}
+
+/// Build the raw tree of a parsed (canonical) encoding.
+pub fn to_raw(d: &[u8], n: &Node) -> RItem {
+    match &n.kind {
+        Kind::U(v) => RItem::U(*v, 0),
+        Kind::N(v) => RItem::N(*v, 0),
+        Kind::B(a, b) => RItem::B(d[*a..*b].to_vec(), 0),
+        Kind::T(a, b) => RItem::T(d[*a..*b].to_vec(), 0),
+        Kind::A(xs) => RItem::A(xs.iter().map(|x| to_raw(d, x)).collect(), 0, false),
+        Kind::M(es) => RItem::M(es.iter().map(|(k, v)| (to_raw(d, k), to_raw(d, v))).collect(), 0, false),
+        Kind::Tag(t, i) => RItem::Tag(*t, 0, Box::new(to_raw(d, i))),
+        Kind::False | Kind::True | Kind::Null | Kind::F(_) | Kind::Simple(_) => RItem::Raw(d[n.start..n.end].to_vec()),
+    }
+}
+
+impl RItem {
+    pub fn count(&self) -> usize {
+        1 + match self {
+            RItem::A(xs, ..) => xs.iter().map(|x| x.count()).sum(),
+            RItem::M(es, ..) => es.iter().map(|(k, v)| k.count() + v.count()).sum(),
+            RItem::Tag(_, _, i) => i.count(),
+            _ => 0,
+        }
+    }
+
+    /// Mutable access to the `idx`-th node in pre-order.
+    pub fn nth_mut(&mut self, idx: &mut usize) -> Option<&mut RItem> {
+        if *idx == 0 {
+            return Some(self);
+        }
+        *idx -= 1;
+        match self {
+            RItem::A(xs, ..) => {
+                for x in xs.iter_mut() {
+                    if let Some(r) = x.nth_mut(idx) {
+                        return Some(r);
+                    }
+                }
+                None
+            }
+            RItem::M(es, ..) => {
+                for (k, v) in es.iter_mut() {
+                    if let Some(r) = k.nth_mut(idx) {
+                        return Some(r);
+                    }
+                    if let Some(r) = v.nth_mut(idx) {
+                        return Some(r);
+                    }
+                }
+                None
+            }
+            RItem::Tag(_, _, i) => i.nth_mut(idx),
+            _ => None,
+        }
+    }
+
+    pub fn kind_name(&self) -> &'static str {
+        match self {
+            RItem::U(..) => "uint",
+            RItem::N(..) => "negint",
+            RItem::B(..) => "bytes",
+            RItem::T(..) => "text",
+            RItem::A(..) => "array",
+            RItem::M(..) => "map",
+            RItem::Tag(..) => "tag",
+            RItem::Raw(..) => "simple/float",
+        }
+    }
+}
